@@ -87,7 +87,7 @@ def shutdownPost (m : Sim) : Sim :=
     match (m.s.callers c).pc with
     | .done (.reply f _) =>
       if (f.typ = 4 ∨ f.typ = 100) ∧ f.pay = 0 then
-        { m1 with s := step m.s .close, shutRes := m.shutRes ++ [(c, if m.s.done then "closed" else "nil")] }
+        { m1 with s := { step m.s .close with closeLog := m.s.closeLog }, shutRes := m.shutRes ++ [(c, if m.s.done then "closed" else "nil")] }
       else { m1 with shutRes := m.shutRes ++ [(c, "err")] }
     | .done .closed => { m1 with shutRes := m.shutRes ++ [(c, "closed")] }
     | .done .ctx => { m1 with shutRes := m.shutRes ++ [(c, "ctx")] }
